@@ -191,7 +191,9 @@ Definition resp_obs_eqb (a b : resp_obs) : bool :=
   (ro_status a =? ro_status b) && str_eqb (ro_location a) (ro_location b) &&
   (* the serving target may rotate; only its presence is compared *)
   Bool.eqb (str_eqb (ro_served_by a) []) (str_eqb (ro_served_by b) []) &&
-  str_eqb (ro_body a) (ro_body b).
+  str_eqb (ro_body a) (ro_body b) &&
+  (* how long the request was held before it was answered (virtual clock: exact) *)
+  (ro_elapsed a =? ro_elapsed b).
 
 Definition c06_pair_ok (prev cur : step_obs) : bool :=
   match so_result cur with
